@@ -333,6 +333,8 @@ _RAO = "Panacea.Refine.AolOrder"
 R_AOLO = [f"{_RAG}.initGenesis_order_independent", "Panacea.C09.importTable_perm", "Panacea.C09.aolImport_perm", "Panacea.Map.ext_sorted", "Panacea.Map.foldl_set_perm"]
 _RAR = "Panacea.Refine.AolReach"
 R_AOLR = [f"{_RAE}.reachable_genesis_roundtrip", "Panacea.Aol.keysInv_step", "Panacea.Aol.keysInv_run", "Panacea.Aol.be64_mod"]
+_RDX = "Panacea.Refine.DidReexport"
+R_DIDX = [f"{_RK}.imported_store", f"{_RK}.exportEntries_imported", f"{_RK}.genesis_roundtrip_reexport", f"{_RK}.reachable_genesis_roundtrip_reexport"]
 _RDR = "Panacea.Refine.DidReach"
 R_DIDR = [f"{_RK}.dStep_wfd", f"{_RK}.dRun_wfd", f"{_RK}.reachable_genesis_roundtrip"]
 _RDG = "Panacea.Refine.DidGenesis"
@@ -351,7 +353,7 @@ REFINE = {
     "C11": ([_RD, _RK], R_DIDV[-4:] + R_DIDK[3:5]),
     "C03": ([_RD, _RK, _RDG], R_DIDV[3:5] + R_DIDV[6:7] + R_DIDK + R_DIDG[-2:-1]),
     "C07": ([_RB], R_BURN),
-    "C08": ([_RP, _RPQ, _RPG, _RDG, _RCS, _RAG, _RAE, _RAR, _RDR], R_PNFTG + [f"{_RP}.getAllDenoms_run"] + R_DIDG + R_CKS[-4:] + R_AOLG + R_AOLE + R_AOLR + R_DIDR),
+    "C08": ([_RP, _RPQ, _RPG, _RDG, _RCS, _RAG, _RAE, _RAR, _RDR, _RDX], R_PNFTG + [f"{_RP}.getAllDenoms_run"] + R_DIDG + R_CKS[-4:] + R_AOLG + R_AOLE + R_AOLR + R_DIDR + R_DIDX),
     "C09": ([_RDG, _RAG, _RAO], R_DIDG[:3] + R_DIDG[-1:] + R_AOLG[4:5] + R_AOLG[7:9] + R_AOLO),
     "C04": ([_RK, _RDG], R_DIDK[2:] + R_DIDG[-2:-1]),
     "C05": ([_RK, _RDG, _RDR], R_DIDK[3:] + R_DIDG[-2:-1] + R_DIDR),
